@@ -64,9 +64,11 @@ ProjG(g) == [id |-> g.id, first |-> g.first, state |-> g.hdr.state, tok |-> g.hd
              created |-> [j \in 1..Len(g.created) |-> ProjCall(g.created[j])]]
 Snap(st) == [i \in 1..Len(st.gs) |-> ProjG(st.gs[i])]
 
-CallRec(fr, bk, st, stop, err) ==
+(* ret: the index of the line whose scanning made the call return (0: the
+   call returned because the stream ended)                                  *)
+CallRec(fr, bk, st, stop, err, ret) ==
   [from |-> fr, fwd |-> bk.fwd, tail |-> bk.tail, cons |-> bk.cons, k1 |-> bk.k1, k2 |-> bk.k2,
-   snap |-> Snap(st), stop |-> stop, err |-> err]
+   snap |-> Snap(st), stop |-> stop, err |-> err, ret |-> ret]
 
 (* What one line does to a call in scanner state st0 with bookkeeping b0.
    Returns [s, b, ret, stop, err].                                          *)
@@ -120,9 +122,9 @@ PStep(p, l) ==
   THEN [base EXCEPT !.s = d1.s, !.b = d1.b]
   ELSE IF last /\ d1.err = ""
   THEN [base EXCEPT !.calls = Append(@, CallRec(p.from, [d1.b EXCEPT !.tail = IF d1.stop = k THEN <<k>> ELSE <<>>],
-                                                 d1.s, k + 1, "eof")),
+                                                 d1.s, k + 1, "eof", k)),
                     !.closed = TRUE, !.s = InitS, !.from = k + 1, !.b = B0]
-  ELSE LET rec == CallRec(p.from, d1.b, d1.s, d1.stop, d1.err) IN
+  ELSE LET rec == CallRec(p.from, d1.b, d1.s, d1.stop, d1.err, k) IN
        IF d1.stop = k + 1
        THEN \* footer consumed: the next call starts at the next line
             [base EXCEPT !.calls = Append(@, rec), !.s = InitS, !.from = k + 1, !.b = B0]
@@ -141,7 +143,7 @@ RunAll(L) == RunFrom(PS0, L, 1)
 FinalCallsOf(p) ==
   IF p.closed THEN p.calls ELSE
   Append(p.calls, CallRec(p.from, [p.b EXCEPT !.tail = @ \o p.b.held, !.k1 = @ \o p.b.held, !.held = <<>>],
-                          p.s, p.n + 1, "eof"))
+                          p.s, p.n + 1, "eof", 0))
 FinalCalls == FinalCallsOf(ps)
 calls == ps.calls
 n == ps.n
